@@ -277,7 +277,17 @@ HS_REQ = (b"GET / HTTP/1.1\r\nHost: localhost:9000\r\nUpgrade: websocket\r\nConn
           b"Sec-WebSocket-Key: dGhlIHNhbXBsZSBub25jZQ==\r\nSec-WebSocket-Version: 13\r\n\r\n")
 
 
-def deliver(peer_role, peer_options, chunks, with_handshake=False):
+def frame_ends(frames):
+    """offsets in the wire at which a frame ends (from the independent parser's frame list)"""
+    ends, pos = [], 0
+    for f in frames:
+        n = f["length"]
+        pos += 2 + (0 if n <= 125 else 2 if n <= 65535 else 8) + (4 if f["masked"] else 0) + n
+        ends.append(pos)
+    return ends
+
+
+def deliver(peer_role, peer_options, chunks, with_handshake=False, burst=False):
     """feed the chunks to a fresh REAL endpoint; with_handshake: the octets of the opening handshake and the first
     chunk arrive in ONE read (hand-over of the octets following the HTTP header)"""
     b = env.connect(peer_role, peer_options)
@@ -297,8 +307,13 @@ def deliver(peer_role, peer_options, chunks, with_handshake=False):
                   b"Sec-WebSocket-Accept: " + acc + b"\r\n\r\n")
         n0 = len(b.log)
         chunks = [hs + (chunks[0] if chunks else b"")] + list(chunks[1:])
-    for ch in chunks:
-        b.feed(ch)
+    if burst:
+        # all reads arrive back to back before the event loop gets a turn (asyncio: several data_received calls queued
+        # behind one wake-up of the consumer; Twisted: identical to one by one)
+        b.feed_burst(list(chunks))
+    else:
+        for ch in chunks:
+            b.feed(ch)
     env.turn()
     got, bad = [], []
     for e in b.log[n0:]:
@@ -367,12 +382,20 @@ def run_case(case):
             modes = e2e["modes"]
             for mode in modes:
                 hs = mode.startswith("hs+")
-                if mode == "all_splits":
+                burst = mode.startswith("burst+")
+                base = mode.split("+", 1)[1] if (hs or burst) else mode
+                if base == "all_splits":
                     segs = [[wire[:k], wire[k:]] for k in range(len(wire) + 1)]
+                elif base == "frames":
+                    # 2-5 chunks, each holding whole frames
+                    ends = frame_ends(frames)[:-1]
+                    k = min(len(ends), rng.randint(1, 4))
+                    cuts = sorted(rng.sample(ends, k)) if k else []
+                    segs = [[wire[a:b] for a, b in zip([0] + cuts, cuts + [len(wire)])]]
                 else:
-                    segs = [segment(wire, mode[3:] if hs else mode, rng)]
+                    segs = [segment(wire, base, rng)]
                 for chunks in segs:
-                    got, bad, st = deliver(peer_role, e2e.get("peer_options") or {}, chunks, with_handshake=hs)
+                    got, bad, st = deliver(peer_role, e2e.get("peer_options") or {}, chunks, with_handshake=hs, burst=burst)
                     runs += 1
                     if got != want or bad or st != "OPEN":
                         fails.append({"mode": mode, "chunk_lens": [len(c) for c in chunks][:40], "bad": bad[:3],
